@@ -3,11 +3,15 @@
 The AST is the one spec/Scopes/Scopes.tla reads (statement records with field k):
   label  [name, oid, hasBody, body]    braces [sid, body]       const [name, oid]
   use    [path, oids]  (one oid per path segment, `super` included)   if0 [body]   import [file, sid]
+  ifelse [c, then, else]   `.if c {..} else {..}` with c in {0, 1}: the branch that is not taken holds uses and macro calls only
+  macrodef [name, oid, params, poids, body]  (body: uses of the parameters)      macrocall [name, oid, args] (literal arguments)
 Rendering is data: every identifier occurrence gets an oid and a position (file, line, col, len).
 Nothing in here knows how names resolve; programs that do not build are discarded by the caller.
 """
 
 NAMES = ["a", "b", "c"]
+MACROS = ["m", "n"]
+PARAMS = ["p", "q"]
 
 
 class Gen:
@@ -18,6 +22,8 @@ class Gen:
         self.two = two_files
         self.maxdepth = maxdepth
         self.defs = []           # (scope tuple, name)
+        self.macros = []         # macrodef statements (top level of main.asm)
+        self.called = set()
 
     def new_oid(self):
         self.oid += 1
@@ -46,8 +52,21 @@ class Gen:
                 self.sid += 1
                 sid = "$b%d" % self.sid
                 out.append({"k": "braces", "sid": sid, "body": self.body(scope + (sid,), depth + 1, self.r.randrange(1, 3))})
-            elif x < 0.55 and depth < self.maxdepth:
+            elif x < 0.52 and depth < self.maxdepth:
                 out.append({"k": "if0", "body": self.body(scope, depth + 1, self.r.randrange(1, 3), allow_defs=False)})
+            elif x < 0.60 and depth < self.maxdepth:
+                c = self.r.randrange(2)          # which branch is taken; the other one is analysed only
+                live = self.body(scope, depth + 1, self.r.randrange(1, 3), allow_defs=False)
+                dead = self.body(scope, depth + 1, self.r.randrange(1, 3), allow_defs=False)
+                out.append({"k": "ifelse", "c": c, "then": live if c else dead, "else": dead if c else live})
+            elif x < 0.72 and self.macros:
+                m = self.r.choice(self.macros)
+                self.called.add(m["name"])
+                out.append({"k": "macrocall", "name": m["name"], "oid": self.new_oid(), "args": [self.r.choice([2, 2, 5]) for _ in m["params"]]})
+            elif allow_defs and x < 0.76 and self.macros and scope and not any(d == (scope, self.macros[0]["name"]) for d in self.defs):
+                name = self.macros[0]["name"]    # a constant named like a macro, inside a scope: calls there still mean the macro
+                self.defs.append((scope, name))
+                out.append({"k": "const", "name": name, "oid": self.new_oid()})
             else:
                 out.append({"k": "use", "path": [], "oids": [], "scope": scope})     # filled in later, when all definitions are known
         return out
@@ -60,6 +79,9 @@ class Gen:
                 st["oids"] = [self.new_oid() for p in st["path"]]          # `super` segments are occurrences too
             elif st["k"] in ("label", "braces", "if0"):
                 self.fill_uses(st["body"], extra_defs)
+            elif st["k"] == "ifelse":
+                self.fill_uses(st["then"], extra_defs)
+                self.fill_uses(st["else"], extra_defs)
 
     def some_path(self, scope, extra_defs):
         cands = self.defs + extra_defs
@@ -94,7 +116,26 @@ class Gen:
             self.fill_uses(inc, [])
             inc_defs = [((), n) for (sc, n) in inc_local if sc == ()]
             self.defs = saved
+        if not self.two and self.r.random() < 0.6:
+            for name in MACROS[:self.r.randrange(1, 3)]:
+                params = [self.r.choice(PARAMS)] if self.r.random() < 0.7 else list(PARAMS)
+                m = {"k": "macrodef", "name": name, "oid": self.new_oid(), "params": params, "poids": [self.new_oid() for _ in params], "body": []}
+                for _ in range(self.r.randrange(1, 3)):
+                    m["body"].append({"k": "use", "path": [self.r.choice(params)], "oids": [self.new_oid()]})
+                self.macros.append(m)
         main = self.body((), 1, self.r.randrange(3, 7))
+        if self.macros:
+            if self.r.random() < 0.4 and len(self.macros) == 2:
+                # a call in an untaken branch, then a real call of the other macro: their expansions are different scopes
+                a, b = self.macros if self.r.random() < 0.5 else self.macros[::-1]
+                v = self.r.choice([2, 5])
+                main.insert(self.r.randrange(len(main) + 1), {"k": "if0", "body": [{"k": "macrocall", "name": a["name"], "oid": self.new_oid(), "args": [v for _ in a["params"]]}]})
+                main.append({"k": "macrocall", "name": b["name"], "oid": self.new_oid(), "args": [v for _ in b["params"]]})
+                self.called |= {a["name"], b["name"]}
+            for m in self.macros:                      # every macro is expanded at least once
+                if m["name"] not in self.called:
+                    main.append({"k": "macrocall", "name": m["name"], "oid": self.new_oid(), "args": [2 for _ in m["params"]]})
+            main = self.macros + main
         if self.two:
             taken = {st["name"] for st in main if st["k"] in ("label", "const")}
             inc = [s for s in inc if s["k"] == "use" or s.get("name") not in taken]     # importing onto an existing symbol is an error
@@ -131,6 +172,24 @@ def render(prog, fname, occ, indent=0, lines=None):
             lines.append(pad + ".if 0 {")
             render(st["body"], fname, occ, indent + 1, lines)
             lines.append(pad + "}")
+        elif k == "ifelse":
+            lines.append(pad + ".if %d {" % st["c"])
+            render(st["then"], fname, occ, indent + 1, lines)
+            lines.append(pad + "} else {")
+            render(st["else"], fname, occ, indent + 1, lines)
+            lines.append(pad + "}")
+        elif k == "macrodef":
+            occ[st["oid"]] = {"f": fname, "line": len(lines), "col": len(pad) + 7, "len": len(st["name"]), "name": st["name"], "def": True}
+            col = len(pad) + 7 + len(st["name"]) + 1
+            for pn, po in zip(st["params"], st["poids"]):
+                occ[po] = {"f": fname, "line": len(lines), "col": col, "len": len(pn), "name": pn, "def": True}
+                col += len(pn) + 2
+            lines.append(pad + ".macro " + st["name"] + "(" + ", ".join(st["params"]) + ") {")
+            render(st["body"], fname, occ, indent + 1, lines)
+            lines.append(pad + "}")
+        elif k == "macrocall":
+            occ[st["oid"]] = {"f": fname, "line": len(lines), "col": len(pad), "len": len(st["name"]), "name": st["name"], "def": False}
+            lines.append(pad + st["name"] + "(" + ", ".join(str(a) for a in st["args"]) + ")")
         elif k == "use":
             col = len(pad) + 6
             for seg, oid in zip(st["path"], st["oids"]):
@@ -149,7 +208,8 @@ def tla_ready(prog):
     out = []
     for st in prog:
         s = dict(st)
-        if "body" in s:
-            s["body"] = tla_ready(s["body"])
+        for b in ("body", "then", "else"):
+            if b in s:
+                s[b] = tla_ready(s[b])
         out.append(s)
     return out
